@@ -405,7 +405,26 @@ class PX:
 
     def s_AugAssign(self, st, fr):
         cur = self.ev(_as_load(st.target), fr)
-        v = self.binop(st.op, cur, self.ev(st.value, fr), st)
+        rhs = self.ev(st.value, fr)
+        # in-place operators of mutable containers modify the object itself (every alias sees the change)
+        if isinstance(cur, (list, bytearray)) and isinstance(st.op, ast.Add) and not isinstance(rhs, (Sym, Obj)):
+            self.emit("write", _text(st.target) + ".extend", (rhs,), node=st, frame=fr)
+            cur.extend(self._concrete_iter(rhs, fr, st))
+            return
+        if isinstance(cur, set) and isinstance(st.op, (ast.BitOr, ast.Sub, ast.BitAnd)) and isinstance(rhs, (set, frozenset)):
+            self.emit("write", _text(st.target) + ".update", (rhs,), node=st, frame=fr)
+            if isinstance(st.op, ast.BitOr):
+                cur |= rhs
+            elif isinstance(st.op, ast.Sub):
+                cur -= rhs
+            else:
+                cur &= rhs
+            return
+        if isinstance(cur, dict) and isinstance(st.op, ast.BitOr) and isinstance(rhs, dict):
+            self.emit("write", _text(st.target) + ".update", (rhs,), node=st, frame=fr)
+            cur.update(rhs)
+            return
+        v = self.binop(st.op, cur, rhs, st)
         self.assign(st.target, v, fr, aug=True)
 
     def s_Return(self, st, fr):
